@@ -279,3 +279,6 @@ def rejected_connect(fl: int, ci: int, ws: bool, a0: int) -> str:
     post: _ == ''
     """
     return verdict(untraced(_rejected, fl, ci, ws, a0))
+
+
+from vf.validate.stubs import ALL as VALIDATE  # noqa: E402  (stub-vs-real conformance, run before the obligations)
